@@ -964,7 +964,7 @@ reg('C06', run_C06, ['Prop_C06.v'], I6RULE + 'evaluations = rejected runs; non-t
     level_note=MODEL_NOTE + ' The Earley recogniser (python) is untrusted search: a case it flags is confirmed against the model.')
 reg('C07', run_C07, ['Prop_C07.v'], I6RULE + 'actions: $$ = (c + sum coef_i*$i) mod 1000003 with random coefficients and random union fields per symbol; non-trivial = accepted inputs whose derivation uses a rule of length >= 2',
     technique='Coq theorem (value returned = bottom-up evaluation over the parse tree, Dollar slice addressing for every rule length) + verified replay of every accepted run of the real parsers with random linear actions',
-    level_text="Proved in Coq: an accepted run returns veval of the parse tree whose post-order is the reduction sequence, for rules of every length including 0 (C07_values), also for the model pipeline as run in every variant (C07_pipeline); the replay checker is sound (C07_replay_checker). Every accepted run of the five real variants with random linear actions (incl. rules with 10-13 symbols reading $10..$13, alternatives sharing their action text) and random union fields is replayed by the extracted checker and its value compared with the model's.",
+    level_text="Proved in Coq: an accepted run returns veval of the parse tree whose post-order is the reduction sequence, for rules of every length including 0 (C07_values), also for the model pipeline as run in every variant (C07_pipeline); the replay checker is sound (C07_replay_checker); the action code of production i is taken from entry i-1 of the rule list of the grammar file and the front-end model keeps the two aligned (C07_action_alignment), with the last action body of an alternative as its action (C04_rule_precedence states both). Every accepted run of the five real variants with random linear actions (incl. rules with 10-13 symbols reading $10..$13, alternatives sharing their action text, duplicate productions) and random union fields is replayed by the extracted checker and its value compared with the model's.",
     level_note=MODEL_NOTE + ' User actions are modelled as pure functions of the $n values.')
 reg('C08', run_C08, ['Prop_C08.v'], I6RULE + 'evaluations = (grammar, job, variant pair) comparisons of verdict, reductions with fetch stamps, value, fetch count; non-trivial = jobs with an accepted parse',
     technique='Coq theorem (array-and-pointer driver simulates the abstract machine; packed lookup = dense cell) + pairwise comparison of the five real variants on identical inputs',
@@ -1011,7 +1011,7 @@ reg('C16', genprops.run_C16, ['Prop_C16.v'], 'grammars: curated families, one gr
     level_note=MODEL_NOTE + ' go vet/go build and node (type stripping, no type check: no tsc in the sandbox) are trusted for the verdict on each file. Guard: token names are identifiers of the target language that are not keywords or template names.')
 reg('C17', genprops.run_C17, ['Prop_C17.v'], I6RULE + 'trace jobs: sentences and short strings run with IsTrace = true in the four Go variants; every printed line is parsed and the printed run is replayed on the implementation\'s own GTable (token read, state pushed, lookahead, rule text from the grammar, goto state, goto push after every reduction), the printed reductions are compared with those the actions recorded in the same run, and the run must be traced up to the accept or error cell. non-trivial = traced runs with at least one reduction',
     technique='Coq theorems on the traced LR machine (printed reductions = performed reductions; the printed run replays on the table) + replay of every real trace on the implementation\'s own table',
-    level_text='Proved in Coq for the traced machine (one Shift event per push, one Reduce event per reduction before its goto push): the reductions printed are exactly the reductions performed for accepted and rejected inputs (C17_trace_reductions), and the printed run replays on the table, i.e. is a legal run of the automaton on the input (C17_trace_legal). The real traces of the four Go variants are parsed and replayed on the implementation\'s own table on every run, including the exact rule text and the lookahead of every reduction.',
+    level_text="Proved in Coq for the traced machine (one Shift event per push, one Reduce event per reduction before its goto push): the reductions printed are exactly the reductions performed for accepted and rejected inputs (C17_trace_reductions), and the printed run replays on the table, i.e. is a legal run of the automaton on the input (C17_trace_legal); the text printed for production i is taken from entry i-1 of the rule list of the grammar file, and the front-end model keeps the two aligned - production i+1 of the grammar object is built from list entry i, same symbols by name (C17_rule_text_alignment). The real traces of the four Go variants are parsed and replayed on the implementation's own table on every run, the printed rule text is compared with the production the table cell names (grammars with duplicate productions included), and the lookahead of every reduction is checked.",
     level_note=MODEL_NOTE + ' The traced machine is the abstract list-stack machine; its equality with the array driver is C08_array_driver.')
 reg('C18', genprops.run_C18, ['Prop_C18.v'], BERULE + 'in-process run with DebugFlags on (the `debug` listing on stdout) and DrawGrammar on the table of the same run; the listing is parsed back into states, items, transitions and lookahead sets and compared with LR0Closure, GTable and LookAheadSet of that run; the DOT text is parsed back into nodes (items, reduce annotations, accept mark) and edges and compared with GTable cell by cell. non-trivial = grammars whose table has both reductions and an accepting state',
     technique="Coq model of DrawGrammar with theorems (edges = shifts/gotos, reduce lines = reductions with their lookahead symbol, accept mark = accepting state, nodes = states with their items, for the tables of one run; listing covers the tables) + listing and DOT graph parsed back and compared with automaton, lookahead sets, table and the model's diagram of the same run",
